@@ -303,11 +303,14 @@ pub fn replay(case: &Value) -> Result<String, String> {
 pub fn plan(tier: Tier) -> Plan {
     let mut p = Plan::new("C05", "model_checking");
     let thorough = tier.thorough();
-    p.rule = "every k-tuple (k=1..4) of subsets of U4={'',a,ab,b} and (k=5,6) of U3={'',a,b}, values 10*stream+key-index and constant 5 (heap ties), stream kinds {whole FST, range().ge(''), search(AlwaysMatch), user Vec streamer} (all kind vectors for k<=3 quick / k<=4 thorough, a rotating vector above), four operations through raw/map/set OpBuilder (+FromIterator/Extend/op().add() forms), IndexedValue lists compared as sets; is_disjoint/is_subset/is_superset for all ordered pairs x stream kinds. non-trivial = tuples with k >= 2 and at least two non-empty streams".into();
+    p.rule = "every k-tuple (k=1..4) of subsets of U4={'',a,ab,b} and (k=5,6) of U3={'',a,b}, and (k=2,3) of Unul={'',00,a,a00} (keys differing only in trailing NUL bytes), values 10*stream+key-index and constant 5 (heap ties), stream kinds {whole FST, range().ge(''), search(AlwaysMatch), user Vec streamer} (all kind vectors for k<=3 quick / k<=4 thorough, a rotating vector above), four operations through raw/map/set OpBuilder (+FromIterator/Extend/op().add() forms), IndexedValue lists compared as sets; is_disjoint/is_subset/is_superset for all ordered pairs x stream kinds. non-trivial = tuples with k >= 2 and at least two non-empty streams".into();
     p.assumptions = vec!["order inside an IndexedValue list is unspecified and is normalised before comparison".into()];
     let u4: Vec<Key> = vec![b"".to_vec(), b"a".to_vec(), b"ab".to_vec(), b"b".to_vec()];
     let u3: Vec<Key> = vec![b"".to_vec(), b"a".to_vec(), b"b".to_vec()];
-    for (uni, ks) in [(u4.clone(), vec![1usize, 2, 3, 4]), (u3.clone(), vec![5, 6])] {
+    // keys that differ only in trailing NUL bytes (ordering of a key and its
+    // zero-padded extensions)
+    let un: Vec<Key> = vec![b"".to_vec(), b"\0".to_vec(), b"a".to_vec(), b"a\0".to_vec()];
+    for (uni, ks) in [(u4.clone(), vec![1usize, 2, 3, 4]), (u3.clone(), vec![5, 6]), (un.clone(), vec![2, 3])] {
         let nsub = 1usize << uni.len();
         // pre-built sources: [mode][stream index][mask]
         let mut table: Vec<Vec<Vec<Src>>> = vec![];
@@ -327,7 +330,7 @@ pub fn plan(tier: Tier) -> Plan {
             let total = (nsub as u64).pow(k as u32);
             for (a, b) in ranges(total, 128) {
                 let table = table.clone();
-                let uname = if uni.len() == 4 { "U4" } else { "U3" };
+                let uname = if uni == un { "Unul" } else if uni.len() == 4 { "U4" } else { "U3" };
                 p.units.push(unit(
                     &format!("{}-all-{}-tuples", uname, k),
                     format!("{} k={} tuples {}..{}", uname, k, a, b),
